@@ -43,6 +43,22 @@ STK_CFG = {
         r'abort': 'verif_abort',
     },
 }
+import copy
+CMP_CFG = copy.deepcopy(STK_CFG)
+RIT = r'std::reverse_iterator<' + IT + r'>'
+CMP_CFG['names'].update({'(anonymous namespace)::comparison_result': 'comparison_result', 'stack::need': 'stack_need',
+                         'stack::get|value &(unsigned int)': 'stack_get',
+                         # same inline helpers as in the stack.cc unit; renamed so both units link into one harness
+                         'zw_value::get_type': 'cmpu_value_get_type', 'value_type::operator<': 'cmpu_value_type_lt',
+                         '_ZN10value_typeC1ERKS_': 'cmpu_value_type_copy'})
+CMP_CFG['types'].update({RIT: 'zw_value **', IT: 'zw_value **'})
+CMP_CFG['extern'].update({
+    VEC + r'::rbegin': 'VECP_RBEGIN',
+    RIT + r'::operator\+': {'c': 'RIT_PLUS', 'by_value': True}, RIT + r'::operator->': {'c': 'RIT_ARROW', 'by_value': True},
+    UP + r'::get': {'c': 'UPTR_ARROW', 'by_value': True}})
+CMP_CFG['exception_kinds'] = {r'std::runtime_error': 2}
+CMP_CFG['drop_streams'] = ['std::cerr']
+CMP_ROOTS = ['(anonymous namespace)::comparison_result']
 STK_ROOTS = ['(anonymous namespace)::compare_stack', 'stack::operator<', 'stack::operator==']
 
 ROOTS = ['constant::operator<', 'constant::operator>', 'constant::operator<=', 'constant::operator>=',
@@ -68,6 +84,10 @@ def jobs(tier):
         J.append(Job('bounded_%s_n%d' % (h, n), ssrc, 'hb_' + h, includes=inc, defines=['STK_N=%d' % n], kind='bounded',
                      unwind=n + 2, timeout=1500, cbmc_args=['--object-bits', '10'],
                      note='bounded: stacks of at most %d slots; element cmp by its model (type code + abstract key)' % n))
+    csrc = [os.path.join(HERE, 'cmp_harness.c'), os.path.join(OUT, 'stk_bodies.c'), os.path.join(OUT, 'cmp_bodies.c')]
+    J.append(Job('comparison_words', csrc, 'h_comparison_words', includes=inc, kind='proof', unwind=3, timeout=600,
+                 cbmc_args=['--object-bits', '10'],
+                 note='comparison_result (words ?lt ?eq ?gt) on two symbolic values vs compare_stack on one-slot stacks; loops only over one slot (full unwind)'))
     J.append(Job('stack_control', ssrc, 'hb_control', includes=inc, defines=['STK_N=2', 'VERIF_CONTROL'], kind='control',
                  expect='fail', unwind=4, timeout=300, cbmc_args=['--object-bits', '10']))
     return J
@@ -80,7 +100,8 @@ ASSUMPTIONS = [
     'the decimal domain is arithmetic and most_enclosing of a named-constant domain is a named-constant domain (MODEL_OK; unverified property of the virtual implementations)',
     'domain objects modelled as elements of one array so that comparing their addresses is defined; at most 4 distinct domains + null among three constants',
     'compare_stack (bounded jobs): the virtual value::cmp is modelled (different types fail, one type totally ordered by an abstract key); std::vector<unique_ptr<value>> by props/c11/vecp_model.h',
-    'SLICE: per-type cmp of strings/sequences/DIEs/address sets and comparison_result are NOT covered',
+    'comparison_result: diagnostics to std::cerr dropped; value::cmp by the same model',
+    'SLICE: per-type cmp of strings/sequences/DIEs/address sets are NOT covered',
 ]
 EXPLANATION = 'constant::operator< and derived operators only; see DESIGN.md section 4 C09.'
 
@@ -92,6 +113,8 @@ def spec_files():
 def prepare(tier):
     lw = vlib.extract('cst', 'libzwerg/constant.cc', CFG, ROOTS, OUT)
     sw = vlib.extract('stk', 'libzwerg/stack.cc', STK_CFG, STK_ROOTS, OUT)
+    cw = vlib.extract('cmp', 'libzwerg/builtin-cmp.cc', CMP_CFG, CMP_ROOTS, OUT)
+    lw.report['functions'] += cw.report['functions']
     lw.report['functions'] += sw.report['functions']
     lw.report['virtual_calls'] += sw.report['virtual_calls']
     return {'units': ['libzwerg/constant.cc', 'libzwerg/stack.cc'], 'functions': lw.report['functions'],
@@ -124,7 +147,35 @@ def native_axioms():
     return viol, last
 
 
+def replay_words():
+    """comparison words vs element-wise order of sequences, on the real library through Zwerg queries."""
+    vals = ['1', '"a"', '[]', '0x10', '[1]']
+    qs, pairs = [], []
+    for a in vals:
+        for b in vals:
+            if a != b:
+                pairs.append((a, b))
+                qs += ['%s %s ?lt' % (a, b), '[%s] [%s] ?lt' % (a, b), '%s %s ?gt' % (a, b), '%s %s ?eq' % (a, b)]
+    res = vlib.zw_queries(qs, OUT)
+    bad = []
+    for i, (a, b) in enumerate(pairs):
+        lt, slt, gt, eq = [x[0] for x in res[4 * i:4 * i + 4]]
+        if lt is None or slt is None:
+            bad.append('%s %s: exception' % (a, b))
+        elif (lt > 0) != (slt > 0):
+            bad.append('`%s %s ?lt` %s but `[%s] [%s] ?lt` %s' % (a, b, 'holds' if lt else 'does not hold', a, b, 'holds' if slt else 'does not hold'))
+        elif (lt > 0) + (gt > 0) + (eq > 0) != 1:
+            bad.append('%s %s: lt/eq/gt = %s/%s/%s' % (a, b, lt, eq, gt))
+    return {'reproduced': bool(bad), 'disagreements_on_real_library': bad[:6], 'pairs_tried': len(pairs)}
+
+
 def replay(r):
+    if r.job.name == 'comparison_words':
+        return replay_words()
+    return replay_axioms(r)
+
+
+def replay_axioms(r):
     """The verifier's counterexample lives in the abstraction of domains (addresses, safe_arith and
     most_enclosing uninterpreted), so it is not replayed literally: the axiom that failed is checked
     on the real constant.cc over a pool of real constants (all pairs and triples)."""
